@@ -83,15 +83,21 @@ type Check struct {
 
 func NewCheck(property, level string) *Check {
 	c := &Check{Property: property, Level: level, start: time.Now(), Coverage: map[string]interface{}{}, known: map[string]int{}, printed: map[string]bool{}}
-	b, err := os.ReadFile(filepath.Join(Root(), "known_findings.json"))
-	if err == nil {
+	files := []string{filepath.Join(Root(), "known_findings.json")}
+	more, _ := filepath.Glob(filepath.Join(Root(), "known_findings.d", "*.json"))
+	sort.Strings(more)
+	for _, f := range append(files, more...) {
+		b, err := os.ReadFile(f)
+		if err != nil {
+			continue
+		}
 		var all struct {
 			Findings []Finding `json:"findings"`
 		}
 		if err := json.Unmarshal(b, &all); err != nil {
-			c.EngineError("known_findings.json: " + err.Error())
+			c.EngineError(f + ": " + err.Error())
 		}
-		c.findings = all.Findings
+		c.findings = append(c.findings, all.Findings...)
 	}
 	return c
 }
